@@ -57,6 +57,9 @@ SPECS = {
     'aliasgen': [F('a', alias='AX', alias_fn=upper_x, alias_from=['in_a'], generated=True), F('b', alias='b_g', alias_from=['in_b'], generated=True, default=1),
                  F('c', alias='cc', alias_from=['c1'], required=False)],
     'depio': [F('x', required=False, deps=['y']), F('y', no_input=True, default=9), F('z', default=0, deps=['x'])],
+    'aliaserr': [F('a', alias_from=['a1'], on_error='exclude', required=False, ge=0), F('b', alias='B1', alias_from=['b2'], ge=0, on_error='preserve', required=False),
+                 F('c', default=1)],
+    'modereq': [F('a', required='w', default=6), F('b', required='a', factory=seven), F('c', required='r', default=1, no_output='w')],
     'mix': [F('a', alias='A1', ci=True), F('b', alias_from=['b1'], default=0, deps=['a']),
             F('c', no_input=True, default=2), F('d', ge=0, on_error='exclude', required=False)],
 }
